@@ -133,6 +133,8 @@ func c07WriterTable(c *Ctx) map[string]string {
 }
 
 func runC07(c *Ctx) {
+	defer c07EveryCommentStringParsed(c, "C07-R2")
+	defer c07ServersKnownAfterDiscovery(c)
 	p := c.P
 	c.Rule("C07-R1", "writer/reader agreement on the dynamic type of Comment.Value per comment Type", 20)
 	c.Rule("C07-R2", "every comment Type handled in exactly one class; keyword table", 26)
@@ -1024,4 +1026,135 @@ func c07ValueTrimmed(c *Ctx) {
 		return true
 	})
 	c.Check(n >= 1, "C07-R1", "parseComment:hands the value to parseValue", pc.Decl.Pos(), itoa(n), "no parseValue call found")
+}
+
+// c07ServersKnownAfterDiscovery: the list of all Prometheus servers that the
+// checks use to recognise `promql/series(<server>)` / `(+tag)` comments is put
+// into the context after dynamic discovery has run: in checkRules the
+// context.WithValue(ctx, AllPrometheusServers, gen.Servers()) call cannot be
+// reached from the entry without passing GenerateDynamic, except on the path
+// where discovery is skipped (offline, or no rules). Built earlier, the list
+// lacks every discovered server, and a comment that names one makes the check
+// of every other server report an "invalid comment" problem.
+func c07ServersKnownAfterDiscovery(c *Ctx) {
+	fi := c.MustFunc("C07-R5", "cmd/pint.checkRules")
+	if fi == nil {
+		return
+	}
+	info := fi.Pkg.TypesInfo
+	fl := c.P.NewFlow(fi)
+	isSetServers := func(n ast.Node) bool {
+		call, ok := n.(*ast.CallExpr)
+		if !ok || len(call.Args) != 3 {
+			return false
+		}
+		fn := Callee(info, call)
+		if fn == nil || fn.Pkg() == nil || fn.Pkg().Path() != "context" || fn.Name() != "WithValue" {
+			return false
+		}
+		k := constObj(info, call.Args[1])
+		return k != nil && k.Name() == "AllPrometheusServers"
+	}
+	isDiscover := func(n ast.Node) bool {
+		found := false
+		inspectNoLit(n, func(m ast.Node) bool {
+			if call, ok := m.(*ast.CallExpr); ok && isCallTo(info, call, "internal/config.PrometheusGenerator.GenerateDynamic") {
+				found = true
+			}
+			return true
+		})
+		return found
+	}
+	sets := fl.Find(isSetServers)
+	c.Check(len(sets) >= 1, "C07-R5", "checkRules:server list handed to the checks", fi.Decl.Pos(), itoa(len(sets))+" site(s)", "checkRules no longer puts AllPrometheusServers into the context")
+	skipParam := paramObj(fi, paramIndex(fi.Obj.Type().(*types.Signature), "isOffline"))
+	for _, s := range sets {
+		target := s.Site
+		reach, _ := fl.Reach(fl.Entry(), func(x Site) bool { return x == target }, false, PathQ{
+			Avoid: isDiscover,
+			Cut: func(atoms []Atom) bool {
+				// paths on which discovery is skipped on purpose
+				for _, a := range atoms {
+					if a.Tag != nil {
+						continue
+					}
+					if a.Truth && objOf(info, a.E) == skipParam && skipParam != nil {
+						return true
+					}
+					// len(entries) > 0 false
+					if be, ok := ast.Unparen(a.E).(*ast.BinaryExpr); ok {
+						if lc, isCall := ast.Unparen(be.X).(*ast.CallExpr); isCall && exprStr(lc.Fun) == "len" {
+							if k, isC := constInt(info, be.Y); isC && k == 0 && ((be.Op == token.GTR && !a.Truth) || (be.Op == token.EQL && a.Truth) || (be.Op == token.NEQ && !a.Truth)) {
+								return true
+							}
+						}
+					}
+				}
+				return false
+			},
+		})
+		c.Check(!reach, "C07-R5", "checkRules:server list is taken after dynamic discovery", s.Inner.Pos(), "GenerateDynamic precedes gen.Servers()",
+			"the list of all Prometheus servers is put into the checks' context on a path that has not run dynamic discovery yet: servers found through `discovery {}` are missing from it, so `# pint disable promql/series(<discovered server>)` is reported as an invalid comment by the check of every other server")
+	}
+}
+
+// c07EveryCommentStringParsed: every comment string yaml attached to a rule's
+// nodes is given to comments.Parse: in parseRule the loop over
+// mergeComments(part) reaches the Parse call for every element. yaml.v3 glues
+// neighbouring comment lines into one string, so skipping a string because it
+// contains one kind of comment (`# pint ignore/end`) also drops the rule's own
+// `# pint disable …` that happens to follow it in the same string.
+func c07EveryCommentStringParsed(c *Ctx, R string) {
+	fi := c.MustFunc(R, "internal/parser.parseRule")
+	if fi == nil {
+		return
+	}
+	info := fi.Pkg.TypesInfo
+	pm := parentMap(fi.Decl.Body)
+	n := 0
+	ast.Inspect(fi.Decl.Body, func(nd ast.Node) bool {
+		rs, ok := nd.(*ast.RangeStmt)
+		if !ok {
+			return true
+		}
+		src, isCall := ast.Unparen(singleDef(info, fi.Decl.Body, rs.X)).(*ast.CallExpr)
+		if !isCall || !isCallTo(info, src, "internal/parser.mergeComments") {
+			return true
+		}
+		n++
+		var call *ast.CallExpr
+		ast.Inspect(rs.Body, func(m ast.Node) bool {
+			if cl, ok := m.(*ast.CallExpr); ok && call == nil && isCallTo(info, cl, "internal/comments.Parse") {
+				call = cl
+			}
+			return true
+		})
+		why := ""
+		switch {
+		case call == nil:
+			why = "the loop does not call comments.Parse"
+		case len(lexicalGuards(pm, call, rs.Body)) > 0:
+			why = "comments.Parse is guarded by `" + roleStr(info, lexicalGuards(pm, call, rs.Body)[0].E) + "`"
+		default:
+			for _, st := range rs.Body.List {
+				inside := false
+				ast.Inspect(st, func(m ast.Node) bool {
+					if m == ast.Node(call) {
+						inside = true
+					}
+					return !inside
+				})
+				if inside {
+					break
+				}
+				if containsBranch(st) {
+					why = "a statement in front of comments.Parse can skip the string"
+				}
+			}
+		}
+		c.Check(why == "", R, "parseRule:every comment string of a rule is parsed", rs.Pos(), "unconditional comments.Parse",
+			why+": yaml joins neighbouring comment lines into one string, so leaving a string out because of one comment in it drops the rule's own control comments that share the string")
+		return true
+	})
+	c.Check(n >= 1, R, "parseRule:comment strings of a rule enumerated", fi.Decl.Pos(), itoa(n), "no loop over mergeComments(…)")
 }
